@@ -457,7 +457,7 @@ def gen_er(rng, tier, i):
     for u in utts:
         stored[u] = rng.choice(["R", "R3"]) if sub == "stored_times" or rng.random() < 0.3 else "R"
     return {
-        "family": "er", "sub": sub, "refs": refs, "hyps": hyps, "vocab": V, "replace": replace, "ignore": ignore,
+        "family": "er", "linked": rng.random() < 0.3, "sub": sub, "refs": refs, "hyps": hyps, "vocab": V, "replace": replace, "ignore": ignore,
         "costs": costs, "per_utt": per_utt, "distances": distances, "missing_ref": missing_ref,
         "missing_hyp": missing_hyp, "warn_missing": sub != "missing" or rng.random() < 0.8,
         "prefix": prefix, "suffix": suffix, "layout": rng.choice(["parent", "two"]),
@@ -599,7 +599,7 @@ def gen_mvn(rng, tier, i):
         shape3 = 2  # store tensors (T, 2, F): leading dims are all pooled
     kind = "prefix" if sub == "prefix" else affix_kind(rng, i)
     prefix, suffix = pick_affix(rng, kind)
-    return {"family": "mvn", "sub": sub, "feats": feats, "groups": groups, "bessel": "bessel" in sub or rng.random() < 0.2,
+    return {"family": "mvn", "linked": rng.random() < 0.3, "sub": sub, "feats": feats, "groups": groups, "bessel": "bessel" in sub or rng.random() < 0.2,
             "dim": dim, "shape3": shape3, "prefix": prefix, "suffix": suffix,
             "distract": distractors(rng, prefix, suffix, utts)}
 
